@@ -2481,6 +2481,8 @@ impl StorageEngine {
     fn expiration_cleanup_loop(engine: Arc<StorageEngine>) {
         loop {
             thread::sleep(Duration::from_secs(1)); // Check every second
+            #[cfg(feature = "verif")]
+            crate::verif::sweeper_wait_while_paused();
             
             for database in &engine.databases {
                 let now = Instant::now();
@@ -2497,6 +2499,11 @@ impl StorageEngine {
                                 expired_keys.push(key.clone());
                             }
                         }
+                    }
+                    
+                    #[cfg(feature = "verif")]
+                    if !expired_keys.is_empty() {
+                        crate::verif::gate("sweeper.between");
                     }
                     
                     // Remove expired keys with write lock
@@ -2516,6 +2523,8 @@ impl StorageEngine {
                     }
                 }
             }
+            #[cfg(feature = "verif")]
+            crate::verif::SWEEPER_PASSES.fetch_add(1, std::sync::atomic::Ordering::SeqCst);
         }
     }
 }
